@@ -14,6 +14,7 @@ import (
 	"os"
 	"reflect"
 	"runtime/debug"
+	"time"
 
 	"tunnox-core/internal/constants"
 	"tunnox-core/internal/packet"
@@ -206,7 +207,30 @@ func runCase(raw json.RawMessage) (res interface{}) {
 				Obs: []obs{{Ok: false, N: -1, Err: msg}}, Bodies: []string{}}
 		}
 	}()
-	return runCase1(raw)
+	// ... and so is a call that never returns (blocked on its own lock, spinning): the watchdog also keeps the Go runtime
+	// from declaring a global deadlock and killing the harness
+	done := make(chan interface{}, 1)
+	go func() {
+		defer func() {
+			if r := recover(); r != nil {
+				st := string(debug.Stack())
+				if len(st) > 1500 {
+					st = st[:1500]
+				}
+				msg := fmt.Sprintf("panic: %v", r)
+				done <- &caseOut{PropOK: false, PropMsg: "the real StreamProcessor panicked: " + msg, Panicked: msg + "\n" + st,
+					Obs: []obs{{Ok: false, N: -1, Err: msg}}, Bodies: []string{}}
+			}
+		}()
+		done <- runCase1(raw)
+	}()
+	select {
+	case r := <-done:
+		return r
+	case <-time.After(60 * time.Second):
+		msg := "the real StreamProcessor did not return within 60 s on a finite stream (blocked or spinning)"
+		return &caseOut{PropOK: false, PropMsg: msg, Panicked: "timeout: " + msg, Obs: []obs{{Ok: false, N: -1, Err: msg}}, Bodies: []string{}}
+	}
 }
 
 func runCase1(raw json.RawMessage) interface{} {
@@ -225,6 +249,7 @@ func runCase1(raw json.RawMessage) interface{} {
 			n    int
 		}
 		var wants []want
+		stopAt := -1 // index of the first packet the reader must refuse (encryption flag), -1 = none
 		for _, p := range c.Pkts {
 			tp := &packet.TransferPacket{PacketType: packet.Type(p.Ty)}
 			body := pktBody(p)
@@ -236,11 +261,25 @@ func runCase1(raw json.RawMessage) interface{} {
 			}
 			before := buf.Len()
 			n, err := sp.WritePacket(tp, p.Compress, p.Rate)
-			if err != nil {
+			wrote := buf.Len() - before
+			if p.Ty&0x80 != 0 && p.Ty&0x3F != 3 { // (a flagged heartbeat is still a 1-byte heartbeat for writer and reader)
+				// a type byte carrying the (unimplemented) encryption flag: the writer may refuse it — then it must not have
+				// put a single byte on the wire — or accept it, in which case the reader refuses the packet (EEncrypted) and stops
+				if err != nil {
+					if wrote != 0 && out.PropOK {
+						out.PropOK = false
+						out.PropMsg = fmt.Sprintf("WritePacket refused packet %d (type %#x) but left %d byte(s) on the wire: every following packet is misaligned", len(wants), p.Ty, wrote)
+					}
+					buf.Truncate(before) // judge the rest of the sequence as if nothing had been written
+					continue
+				}
+				if stopAt < 0 {
+					stopAt = len(wants)
+				}
+			} else if err != nil {
 				out.PropOK = false
 				out.PropMsg = fmt.Sprintf("WritePacket refused a well-formed packet: %v", err)
 			}
-			wrote := buf.Len() - before
 			if n != wrote && out.PropOK {
 				out.PropOK = false
 				out.PropMsg = fmt.Sprintf("WritePacket reported %d bytes but wrote %d", n, wrote)
@@ -281,6 +320,14 @@ func runCase1(raw json.RawMessage) interface{} {
 		}
 		out.Obs = obsv
 		// the property itself, evaluated on the implementation's own outputs
+		if out.PropOK && stopAt >= 0 {
+			// packets before the flagged one round-trip; the flagged one is refused
+			if len(pkts) != stopAt || len(obsv) != stopAt+1 || obsv[stopAt].Ok {
+				out.PropOK = false
+				out.PropMsg = fmt.Sprintf("a packet with the encryption flag was accepted by the writer at position %d: expected %d packets then a refusal, read %d (last %+v)", stopAt, stopAt, len(pkts), obsv[len(obsv)-1])
+			}
+			wants = wants[:stopAt]
+		}
 		if out.PropOK {
 			if len(pkts) != len(wants) {
 				out.PropOK = false
@@ -303,7 +350,7 @@ func runCase1(raw json.RawMessage) interface{} {
 					}
 				}
 				last := obsv[len(obsv)-1]
-				if out.PropOK && (last.Ok || last.N != 0) {
+				if out.PropOK && stopAt < 0 && (last.Ok || last.N != 0) {
 					out.PropOK, out.PropMsg = false, fmt.Sprintf("no clean end of stream after the last packet: %+v", last)
 				}
 			}
